@@ -731,6 +731,9 @@ func (g *gen) sLoop(fc *fctx) []Stmt {
 	g.mult *= iters
 	defer func() { g.mult = oldMult }()
 	nb := 1 + g.ch(3)
+	if g.feat("closure") && fc.level < 3 && g.ch(6) == 0 {
+		return g.sCaptureBreak(fc, iters)
+	}
 	switch g.ch(7) {
 	case 0, 1: // numeric for
 		iv := g.fresh("i")
@@ -875,4 +878,93 @@ func countLocals(ss []Stmt) int {
 		}
 	}
 	return n
+}
+
+// sCaptureBreak: captured locals at the loop-body level and in blocks nested in it, closures over them
+// escape through globals, the loop is left by a break placed in the (innermost) nested block at a drawn
+// iteration; afterwards registers are reused and the escaped closures are used.
+func (g *gen) sCaptureBreak(fc *fctx, iters int) []Stmt {
+	g.use("capture_break")
+	iv := g.fresh("i")
+	sig0 := &fnSig{nparams: 0, rets: []retT{{k: kNum}}, cost: 4}
+	mkCounter := func(init Expr) (decl []Stmt, gname string) {
+		v, f := g.fresh("cv"), g.fresh("cf")
+		gname = g.fresh("GC")
+		g.prog.NFuncs++
+		fd := &FuncDef{ID: g.prog.NFuncs, Body: []Stmt{
+			&Assign{Targets: []Expr{Var{v}}, Exprs: []Expr{Bin{"+", Var{v}, Num{1}}}},
+			&Return{Exprs: []Expr{Var{v}}}}}
+		decl = []Stmt{&Local{Names: []string{v}, Exprs: []Expr{init}}, &Local{Names: []string{f}, Exprs: []Expr{Func{fd}}},
+			&Assign{Targets: []Expr{Var{gname}}, Exprs: []Expr{Var{f}}}}
+		g.globals = append(g.globals, &varInfo{name: gname, k: kFn, sig: sig0, global: true})
+		return
+	}
+	var globals []string
+	d0, g0 := mkCounter(Bin{"*", Var{iv}, Num{10}})
+	globals = append(globals, g0)
+	body := d0
+	// nested levels
+	depth := 1 + g.ch(2)
+	breakAt := 1 + g.ch(iters)
+	inner := []Stmt{}
+	for lvl := depth; lvl >= 1; lvl-- {
+		dl, gl := mkCounter(Bin{"+", Var{iv}, Num{float64(100 * lvl)}})
+		globals = append(globals, gl)
+		blk := dl
+		if g.ch(3) == 0 {
+			blk = append(blk, g.sEmit(fc)...)
+		}
+		if lvl == depth {
+			// the break sits in the innermost nested block (sometimes in the outer one)
+			blk = append(blk, &If{Conds: []Expr{Bin{"==", Var{iv}, Num{float64(breakAt)}}}, Blocks: [][]Stmt{{&Break{}}}})
+		}
+		blk = append(blk, inner...)
+		if g.ch(2) == 0 {
+			inner = []Stmt{&Do{Body: blk}}
+		} else {
+			inner = []Stmt{&If{Conds: []Expr{Bin{"<", Var{iv}, Num{1000}}}, Blocks: [][]Stmt{blk}}}
+		}
+	}
+	body = append(body, inner...)
+	body = append(body, g.sEmit(fc)...)
+	var loop Stmt
+	if g.ch(2) == 0 {
+		loop = &NumFor{Var: iv, From: Num{1}, To: Num{float64(iters)}, Body: body}
+	} else {
+		// while with the counter as a plain local
+		body = append(body, &Assign{Targets: []Expr{Var{iv}}, Exprs: []Expr{Bin{"+", Var{iv}, Num{1}}}})
+		return append([]Stmt{&Local{Names: []string{iv}, Exprs: []Expr{Num{1}}}, &While{Cond: Bin{"<=", Var{iv}, Num{float64(iters)}}, Body: body}}, g.useCounters(fc, globals)...)
+	}
+	return append([]Stmt{loop}, g.useCounters(fc, globals)...)
+}
+
+func (g *gen) useCounters(fc *fctx, globals []string) []Stmt {
+	out := g.sClobberN(30)
+	var names []string
+	for _, gn := range globals {
+		r := g.fresh("cr")
+		names = append(names, r)
+		out = append(out, &Call{Names: []string{r}, Fn: Var{gn}})
+	}
+	// locals declared after the loop reuse its registers
+	pad := g.fresh("pad")
+	out = append(out, &Local{Names: []string{pad, pad + "b", pad + "c"}, Exprs: []Expr{Num{901}, Num{902}, Num{903}}})
+	for _, gn := range globals {
+		r := g.fresh("cr")
+		names = append(names, r)
+		out = append(out, &Call{Names: []string{r}, Fn: Var{gn}})
+	}
+	if len(names) > 8 {
+		names = names[:8]
+	}
+	out = append(out, g.emitVars("cbk", names...))
+	return out
+}
+
+func (g *gen) sClobberN(n int) []Stmt {
+	var args []Expr
+	for i := 0; i < n; i++ {
+		args = append(args, Num{float64(700 + i)})
+	}
+	return []Stmt{&Call{Fn: Var{"clobber"}, Args: args}}
 }
